@@ -111,8 +111,11 @@ func H_C13_propstep() {
 	v := rt.Int64()
 	rt.Assume(v > 2 && v < 1000)
 	h.Set("v", object.NewPanInt(v))
-	a, ok := h.EvalNoPanic(`{a: v}.try.a.A`).(*object.PanArr)
-	rt.Assert(ok && len(a.Elems) == 2 && isInt(a.Elems[0], v) && isNil(a.Elems[1]), "a step naming a non-callable property holds that property, as the plain call does")
+	if rt.Bool() { // (two separate paths: each assertion is reached on its own)
+		a, ok := h.EvalNoPanic(`{a: v}.try.a.A`).(*object.PanArr)
+		rt.Assert(ok && len(a.Elems) == 2 && isInt(a.Elems[0], v) && isNil(a.Elems[1]), "a step naming a non-callable property holds that property, as the plain call does")
+		return
+	}
 	plain, isErr := h.EvalNoPanic(`v.nosuchprop`).(*object.PanErr)
 	w, ok2 := h.EvalNoPanic(`v.try.nosuchprop.err`).(*object.PanErrWrapper)
 	rt.Assert(isErr && ok2 && w.ErrKind == plain.ErrKind && w.Msg == plain.Msg, "err must hold an error with the type and message the plain call raised")
